@@ -57,6 +57,39 @@ func runSched(t *testing.T, sc *SchedScenario, prefix []int, sigs []string) (r s
 	return
 }
 
+// FreeRunSched runs a scenario n times without any scheduling control (real goroutines on
+// all Ps, model locks replaced by their scheduler-less fallback). It is NOT part of the
+// exhaustive exploration: it exists so that a binary built with -race can observe
+// unsynchronised accesses, which the cooperative scheduler's hand-offs hide. Oracle failures
+// seen here are counted and noted, never reported as violations (they are not replayable).
+func FreeRunSched(t *testing.T, rep *Report, sc *SchedScenario, n int) {
+	for i := 0; i < n; i++ {
+		var viol, dead string
+		synctest.Test(t, func(t *testing.T) {
+			x := vrt.NewFree()
+			after := sc.Build(x)
+			x.Run()
+			dead = x.Deadlock
+			viol, _, _ = after(x)
+		})
+		rep.Executions++
+		rep.Count("free_runs["+sc.Name+"]", 1)
+		if viol != "" || dead != "" {
+			rep.Count("free_run_oracle_failures["+sc.Name+"]", 1)
+			if rep.Counters["free_run_oracle_failures["+sc.Name+"]"] <= 1 {
+				rep.Note(fmt.Sprintf("[%s] free run %d: %s %s", sc.Name, i, dead, firstLine(viol)))
+			}
+		}
+	}
+}
+
+func firstLine(s string) string {
+	if i := strings.Index(s, "\n"); i >= 0 {
+		return s[:i]
+	}
+	return s
+}
+
 // ExploreSched explores one scenario; returns false when cut short.
 func ExploreSched(t *testing.T, rep *Report, sc *SchedScenario) bool {
 	var rc SchedReplay
